@@ -156,6 +156,26 @@ def _multi_run_fixes(source: str, preserve: Collection[str]) -> str:
     return source
 
 
+def _keep_ignored_lines(source: str, new_source: str) -> str:
+    """Give the lines with an ignore comment back the whitespace they had in source.
+
+    For use around steps that only change whitespace within lines.
+    """
+    pattern = re.compile(r"#\s*pyrefact\s*:\s*(skip_file|ignore)")
+    ignored_lines = [line for line in source.splitlines(keepends=True) if pattern.search(line)]
+    new_lines = new_source.splitlines(keepends=True)
+    new_indices = [i for i, line in enumerate(new_lines) if pattern.search(line)]
+    if len(new_indices) != len(ignored_lines):
+        return new_source
+
+    for i, line in zip(new_indices, ignored_lines):
+        if new_lines[i].split() == line.split():
+            new_lines[i] = line
+
+    # Not if that mixes tabs and spaces in the indentation of a block, for example
+    return processing.keep_syntax_tree(new_source, "".join(new_lines))
+
+
 def format_code(
     source: str,
     *,
@@ -168,8 +188,10 @@ def format_code(
         return source
 
     # Tabs and trailing whitespace inside multi-line strings are part of the strings
+    given_source = source
     source = processing.keep_syntax_tree(source, source.expandtabs(4))
     source = processing.keep_syntax_tree(source, rmspace.format_str(source))
+    source = _keep_ignored_lines(given_source, source)
     source = fixes.fix_too_many_blank_lines(source)
 
     if not source.strip():
@@ -266,7 +288,7 @@ def format_code(
     source = fixes.sort_imports(source)
 
     source = fixes.fix_line_lengths(source, max_line_length=max_line_length)
-    source = processing.keep_syntax_tree(source, rmspace.format_str(source))
+    source = _keep_ignored_lines(source, processing.keep_syntax_tree(source, rmspace.format_str(source)))
 
     if minimum_indent > 0:
         source = textwrap.indent(source, " " * minimum_indent)
